@@ -183,7 +183,7 @@ func c03Run(r *sim.Run) {
 		x = p.Stream()
 		name = "packager-stream"
 	} else if t.Chance(80) {
-		p, err := work.RawProduce(r, 2, 3, 2, 4)
+		p, err := work.RawProduceOpt(r, 2, 3, 2, 4, t.Bool(), true)
 		if err != nil {
 			panic(sim.HarnessAbort{Msg: "raw fragment producer: " + err.Error()})
 		}
@@ -507,7 +507,7 @@ func typedPayload(typ string, t *sim.Tape, rnd *sim.Rand) []byte {
 	// the count field usually says cnt; sometimes it claims far more entries than the box holds
 	claimed := uint32(cnt)
 	if t.Chance(50) {
-		claimed = []uint32{0x7fffffff, 0xffffffff, 0x40000000, 0x01000000, 3000000}[t.Draw(5)]
+		claimed = []uint32{0x7fffffff, 0xffffffff, 0x40000000, 0x01000000, 3000000, 0x80000000, 0x80000001, 0x55555556}[t.Draw(8)]
 	} else if t.Chance(150) {
 		claimed = uint32(cnt + 1 + t.Draw(2)) // one or two more than there are
 	}
@@ -539,6 +539,24 @@ func typedPayload(typ string, t *sim.Tape, rnd *sim.Rand) []byte {
 		for _, b := range []uint32{0x2, 0x8, 0x10, 0x20} {
 			if fl&b != 0 {
 				u32(val())
+			}
+		}
+	case "senc":
+		fl := subset(0x2)
+		vf(0, fl)
+		u32(claimed)
+		ivLen := []int{0, 8, 16}[t.Draw(3)]
+		for i := 0; i < cnt; i++ {
+			for j := 0; j < ivLen; j++ {
+				u8(t.Draw(256))
+			}
+			if fl&0x2 != 0 {
+				ns := t.Draw(3)
+				u16(ns)
+				for j := 0; j < ns; j++ {
+					u16(t.Draw(300))
+					u32(val())
+				}
 			}
 		}
 	case "saiz":
